@@ -215,12 +215,14 @@ def shapeFile (s : Stmt) : Option Shape :=
   (shapeStmt s).map (fun sh => .node "file" [.node "statement" [sh]])
 
 /-- dialect statement types that stand for a core statement type and are claimed by the SAME extractor (proved over the
-    regenerated dispatch table in `Props.C09.alias_same_extractor`): postgres / greenplum / redshift / vertica CTAS -/
-def stmtTypeAliases : List (String × String) := [("create_table_as_statement", "create_table_statement")]
+    regenerated dispatch table in `Props.C09.alias_same_extractor`): postgres / greenplum / redshift / vertica CTAS, impala CTAS -/
+def stmtTypeAliases : List (String × String) :=
+  [("create_table_as_statement", "create_table_statement"),
+   ("create_table_as_select_statement", "create_table_statement")]   -- impala (K3 repaired: the type is claimed now)
 
-/-- dialect statement types that stand for a core statement type but are claimed by NO extractor (finding K3, impala CTAS;
-    `Props.C09.dev_K3_unclaimed`) -/
-def stmtTypeUnclaimed : List (String × String) := [("create_table_as_select_statement", "create_table_statement")]
+/-- dialect statement types that stand for a core statement type but are claimed by NO extractor: none since the repair of K3
+    (impala's `create_table_as_select_statement` is now in `CreateInsertExtractor.SUPPORTED_STMT_TYPES`) -/
+def stmtTypeUnclaimed : List (String × String) := []
 
 /-- the segment type the shape has at the statement node -/
 def rootType : Shape → String
